@@ -143,7 +143,7 @@ def build_and_run(h, work, tier, keep=False):
     except RuntimeError as e:
         res["reason"] = str(e)
         return res
-    incs += ["-I" + os.path.join(VERIF, "include"), "-I" + VERIF, "-I" + SRC]
+    incs += ["-I" + os.path.join(VERIF, "include", "shadow"), "-I" + os.path.join(VERIF, "include"), "-I" + VERIF, "-I" + SRC]
     defs = ["-DNDEBUG", "-D" + GUARD] + ["-D" + d for d in h["defs"]]
     srcs = [os.path.join(VERIF, h["file"])] + [os.path.join(SRC, s) for s in h["src"]] + \
            [os.path.join(VERIF, s) for s in h["stubs"]]
@@ -180,7 +180,7 @@ def build_and_run(h, work, tier, keep=False):
             res["reason"] = "contract instrumentation failed (goto-instrument --dfcc): " + (err + out)[-1500:]
             return res
         cur = b
-    cmd = ["cbmc", cur, "--json-ui", "--drop-unused-functions", "--object-bits", str(h["objbits"])]
+    cmd = ["cbmc", cur, "--json-ui", "--verbosity", "8", "--drop-unused-functions", "--object-bits", str(h["objbits"])]
     if h["safety"]:
         fl = list(SAFETY_FLAGS)
         if h["no_ptr_prim"]:
@@ -220,7 +220,7 @@ def build_and_run(h, work, tier, keep=False):
         if "messageText" in e:
             msgs.append(e["messageText"])
     alltxt = "\n".join(msgs)
-    for m in re.finditer(r"Runtime (?:decision procedure|Solver): ([0-9.]+)s", alltxt):
+    for m in re.finditer(r"Runtime decision procedure: ([0-9.e+-]+)s", alltxt):
         res["solver_s"] += float(m.group(1))
     res["solver_s"] = round(res["solver_s"], 3)
     res["warnings"] = sorted(set(re.findall(r"(?:ignoring [^\n]*|no body for (?:function|callee) [^\n]*)", alltxt)))
@@ -296,36 +296,39 @@ def classify(h, res):
 # --------------------------------------------------------------------------------------------------------------------
 # counterexample extraction and native replay
 
-def flatten_value(v, prefix, out):
-    """Flatten a CBMC json trace value into name -> little-endian hex bytes."""
+def value_bytes(v):
+    """In-memory image (little endian) of a CBMC json trace value: scalars by their bit pattern, arrays by index
+    order, structs by member order (CBMC lists padding members explicitly)."""
     if v is None:
-        return
-    if "binary" in v and "elements" not in v and "members" not in v:
+        return b""
+    if "elements" in v:
+        return b"".join(value_bytes(e.get("value")) for e in sorted(v["elements"], key=lambda e: int(e.get("index", 0))))
+    if "members" in v:
+        return b"".join(value_bytes(m.get("value")) for m in v["members"])
+    if "binary" in v:
         bits = v["binary"]
         if len(bits) % 8:
             bits = bits.rjust((len(bits) + 7) // 8 * 8, "0")
-        by = int(bits, 2).to_bytes(len(bits) // 8, "little") if bits else b""
-        out[prefix] = by.hex()
-        return
-    if "elements" in v:
-        for e in v["elements"]:
-            flatten_value(e.get("value"), f"{prefix}[{e.get('index')}]", out)
-        return
-    if "members" in v:
-        for m in v["members"]:
-            nm = m.get("name")
-            # VIN_ARR wraps arrays in a one-member struct named v
-            p = prefix if nm == "v" else f"{prefix}.{nm}"
-            flatten_value(m.get("value"), p, out)
-        return
-    if "data" in v and v.get("name") in ("integer", "float", "pointer", "boolean"):
-        # no binary: best effort for integers
+        return int(bits, 2).to_bytes(len(bits) // 8, "little") if bits else b""
+    if "data" in v:
         try:
             w = int(v.get("width", 64))
-            iv = int(v["data"]) & ((1 << w) - 1)
-            out[prefix] = iv.to_bytes(w // 8, "little").hex()
+            return (int(v["data"]) & ((1 << w) - 1)).to_bytes(w // 8, "little")
         except Exception:
-            pass
+            return b""
+    return b""
+
+
+def flatten_value(v, prefix, out):
+    """name -> hex bytes; a VIN_ARR value (one-member struct 'v' holding the array) becomes name[i] entries."""
+    if v is None:
+        return
+    if "members" in v and len(v["members"]) == 1 and v["members"][0].get("name") == "v" \
+            and "elements" in (v["members"][0].get("value") or {}):
+        for e in v["members"][0]["value"]["elements"]:
+            out[f"{prefix}[{int(e.get('index', 0))}]"] = value_bytes(e.get("value")).hex()
+        return
+    out[prefix] = value_bytes(v).hex()
 
 
 def extract_inputs(trace, names):
@@ -339,7 +342,7 @@ def extract_inputs(trace, names):
         lhs = st.get("lhs", "")
         if not lhs.startswith("return_value_nondet_in_"):
             continue
-        base = lhs[len("return_value_nondet_in_"):]
+        base = re.sub(r"__L\d+$", "", lhs[len("return_value_nondet_in_"):])
         if base not in names or base in seen:
             continue
         seen.add(base)
@@ -354,7 +357,7 @@ def vin_names_of(harness_file):
 
 
 def get_counterexample(h, res, prop, work):
-    cmd = [c for c in res["cbmc_cmd"] if c != "--json-ui"] + ["--property", prop["property"], "--trace", "--json-ui"]
+    cmd = [c for c in res["cbmc_cmd"] if c not in ("--json-ui", "--verbosity", "8")] + ["--property", prop["property"], "--trace", "--json-ui"]
     rc, out, err, wall = run(cmd, timeout=h["timeout"], mem_gb=h["mem_gb"])
     try:
         data = json.loads(out)
@@ -402,10 +405,10 @@ def native_replay(h, work, inputs_path, log_path):
     shutil.rmtree(hd, ignore_errors=True)
     if "REPLAY-ASSUME-UNMET" in out:
         return "assumption-unmet", " ".join(cmd)
-    if "REPLAY-FAIL" in out or "runtime error" in err or "AddressSanitizer" in err or rc not in (0,):
-        if rc == 3:
-            return "assumption-unmet", " ".join(cmd)
+    if "REPLAY-FAIL" in out or "runtime error" in err or "AddressSanitizer" in err:
         return "reproduced", " ".join(cmd)
+    if rc != 0:
+        return f"native-run-error(rc={rc})", " ".join(cmd)
     return "not-reproduced", " ".join(cmd)
 
 
@@ -584,7 +587,11 @@ def check_obligation_list(pid, args, results):
     cur = set()
     for h, r in results:
         for p in r.get("props", []):
-            if p["cls"] in CONTRACT_CLASSES and not p["description"].startswith("CANARY"):
+            # only obligations whose names do not depend on the text of /repo: harness assertions named after the
+            # property, contract postconditions, preconditions of replaced callees
+            if p["cls"] == "assertion" and p["description"].startswith(pid + "."):
+                cur.add(h["name"] + "::" + obligation_key(p))
+            elif p["cls"] in ("postcondition", "precondition"):
                 cur.add(h["name"] + "::" + obligation_key(p))
     if os.environ.get("VERIF_UPDATE_LIST") == "1" and not args.only:
         keep = []
